@@ -136,31 +136,49 @@ func TestVerifC03Address(t *testing.T) {
 		keys = append(keys, pk)
 		isAlias = append(isAlias, false)
 	}
-	for k, pk := range keys {
-		o := c07JObs{Kind: "json", Case: 0, Acct: 0, Hist: [][]int{}, Limit: 1000, Result: []int{}, Alias: isAlias[k], Whist: [][]string{}, Wresult: []string{}, Loaded: []uint64{3}}
-		_, body, p := vCall(handler, fmt.Sprintf(`{"jsonrpc":"2.0","id":1,"method":"getSignaturesForAddress","params":["%s",{"limit":1000}]}`, pk))
-		var resp struct {
-			Result []map[string]any `json:"result"`
-			Error  map[string]any   `json:"error"`
+	// the same requests with one epoch loaded and then with a second epoch (in whose address index these addresses are
+	// plainly absent) loaded next to it
+	l4, err := vBuild(t, c10spec(4, seed+1), true)
+	if err != nil {
+		t.Fatal(err)
+	}
+	e4, err := NewEpochFromConfig(l4.cfg, vCliCtx(), vCache(t), nil)
+	if err != nil {
+		t.Fatal(err)
+	}
+	defer e4.Close()
+	for pass := 0; pass < 2; pass++ {
+		loadedNow := []uint64{3}
+		if pass == 1 {
+			multi.ReplaceOrAddEpoch(4, e4)
+			loadedNow = []uint64{3, 4}
 		}
-		switch {
-		case p != nil:
-			o.Err = fmt.Sprint(p)
-		case json.Unmarshal([]byte(body), &resp) != nil:
-			o.Err = fmt.Sprintf("unparsable response %.100q", body)
-		case resp.Error != nil:
-			// an error answer carries no foreign signatures
-		default:
-			for _, r := range resp.Result {
-				s, _ := r["signature"].(string)
-				id, ok := sigID[s]
-				if !ok {
-					id = -1
-				}
-				o.Result = append(o.Result, id)
+		for k, pk := range keys {
+			o := c07JObs{Kind: "json", Case: 0, Acct: 0, Hist: [][]int{}, Limit: 1000, Result: []int{}, Alias: isAlias[k], Whist: [][]string{}, Wresult: []string{}, Loaded: loadedNow}
+			_, body, p := vCall(handler, fmt.Sprintf(`{"jsonrpc":"2.0","id":1,"method":"getSignaturesForAddress","params":["%s",{"limit":1000}]}`, pk))
+			var resp struct {
+				Result []map[string]any `json:"result"`
+				Error  map[string]any   `json:"error"`
 			}
+			switch {
+			case p != nil:
+				o.Err = fmt.Sprint(p)
+			case json.Unmarshal([]byte(body), &resp) != nil:
+				o.Err = fmt.Sprintf("unparsable response %.100q", body)
+			case resp.Error != nil:
+				// an error answer carries no foreign signatures
+			default:
+				for _, r := range resp.Result {
+					s, _ := r["signature"].(string)
+					id, ok := sigID[s]
+					if !ok {
+						id = -1
+					}
+					o.Result = append(o.Result, id)
+				}
+			}
+			out.Emit(o)
 		}
-		out.Emit(o)
 	}
 	t.Logf("aliasing addresses found: %d", len(aliases))
 }
